@@ -168,6 +168,15 @@ def modify_rules(ctx):
                            "" if ok else "write mutex not held", fn=f.label, inst=f.qname)
             if not applies and not st_rl and not st_cl and f.name != "modify":
                 continue        # a path of a later writer operation that gives up before it starts (a failed try-lock)
+            # the two selectors are flipped together: no user code runs between the flip of m_readingLeft and the flip of
+            # m_countingLeft (a functor that throws there leaves them different for good - every later modification then
+            # starts from a wrong picture of which copy readers use and which counter they register in)
+            if st_rl and st_cl:
+                lo, hi = sorted((st_rl[0][0], st_cl[0][0]))
+                mid = [e for i, e in applies if lo < i < hi]
+                ctx.ob("C03.first", not mid, f.loc(mid[0][4]) if mid else f.where, "no application of the functor lies between the two flag flips (%s)" % tag,
+                       "" if not mid else "the functor runs after one selector was flipped and before the other: if it throws, the handler "
+                       "restores the copy but the selectors stay different", fn=f.label, inst=f.qname)
             if rl is None and len(applies) == 2 and len(st_rl) == 1:
                 ctx.unknown("C03.first: cannot resolve the value of m_readingLeft along a path of %s" % f.label)
                 continue
@@ -209,6 +218,8 @@ def modify_rules(ctx):
                        "" if ok else "stores %s" % (v,), fn=f.label, inst=f.qname)
             seen_val.add((rl, cl))
         ok = {rl for rl, _ in seen_val} == {True, False}
+        if not seen_val:
+            continue        # no path of this function could be resolved: reported as undecided above, not as a verdict
         ctx.ob("C03.first", ok, f.where, "both values of m_readingLeft are handled", "" if ok else str(seen_val),
                fn=f.label, inst=f.qname)
 
